@@ -1,12 +1,14 @@
 #!/bin/sh
 # usage: tools/try_mutant.sh <patch.diff> <ID> [tier] [extra check args]
-# Applies the patch to a scratch COPY of /repo (never to /repo itself), runs the check against the copy, removes the copy.
+# Applies the patch to a scratch COPY of /repo (never to /repo itself) and runs the check from a scratch COPY of
+# /verif (so that regenerated Lean files, the driver and evidence of the mutant run never touch /verif).
 set -u
 P="$1"; ID="$2"; TIER="${3:-quick}"; shift; shift; [ $# -gt 0 ] && shift
 M=/root/scratch/repo_mut_$$
+V=/root/scratch/verif_mut_$$
 mkdir -p /root/scratch && rsync -a --exclude .git /repo/ "$M"/ || exit 3
 ( cd "$M" && patch -p1 -s < "$P" ) || { echo "patch does not apply"; rm -rf "$M"; exit 3; }
-cd /verif && VERIF_EVIDENCE_DIR=/root/scratch/mutant_evidence VERIF_REPO="$M" PYTHONPATH="$M" timeout 3000 ./check "$ID" --tier "$TIER" "$@" 2>&1 | grep -v "^WARN\|chttp2" | tail -6
-rm -rf "$M"
-# translators regenerated lean/OptunaVerif/Generated from the mutated copy: put the pristine files back
-git -C /verif checkout -- lean/OptunaVerif/Generated 2>/dev/null
+rsync -a --exclude .git --exclude replays /verif/ "$V"/ || exit 3
+cd "$V" && VERIF_REPO="$M" PYTHONPATH="$M" timeout 3000 ./check "$ID" --tier "$TIER" "$@" 2>&1 | grep -v "^WARN\|chttp2" | tail -6
+mkdir -p /verif/replays && cp -n "$V"/replays/* /verif/replays/ 2>/dev/null
+rm -rf "$M" "$V"
